@@ -27,11 +27,11 @@ theorem textQueueBytes_append (eol : Bytes) (a b : List (List Bytes)) :
   | nil => rfl
   | cons x r ih => simp [textQueueBytes, ih, List.append_assoc]
 
-def textPending (t : TextTx) : Bytes :=
-  (if t.hasMsg then t.cur ++ textLinesBytes t.eol t.lines else []) ++ textQueueBytes t.eol t.queue
+def textPending (eol : Bytes) (t : TextTx) : Bytes :=
+  (if t.hasMsg then t.cur ++ textLinesBytes eol t.lines else []) ++ textQueueBytes eol t.queue
 
-theorem textSettle_pending (t : TextTx) : textPending (textSettle t).1 = textPending t := by
-  obtain ⟨hm, lines, cur, queue, eol⟩ := t
+theorem textSettle_pending (eol : Bytes) (t : TextTx) : textPending eol (textSettle eol t).1 = textPending eol t := by
+  obtain ⟨hm, lines, cur, queue⟩ := t
   cases hm
   · cases queue with
     | nil => simp [textSettle, textPending]
@@ -47,30 +47,26 @@ theorem textSettle_pending (t : TextTx) : textPending (textSettle t).1 = textPen
       | nil => simp [textSettle, textPending, textLinesBytes]
       | cons l ls => simp [textSettle, textPending, textLinesBytes, List.append_assoc]
 
-theorem textSettle_eol (t : TextTx) : (textSettle t).1.eol = t.eol := by
-  obtain ⟨hm, lines, cur, queue, eol⟩ := t
-  cases hm
-  · cases queue with
-    | nil => simp [textSettle]
-    | cons m r => cases m <;> simp [textSettle]
-  · cases hcur : cur.isEmpty
-    · simp [textSettle, hcur]
-    · cases lines <;> simp [textSettle, hcur]
-
-/-- the sender conserves bytes; `enc` of a Message = its lines, each followed by the terminator
-    (stated for the terminator `eol` the sender was created with) -/
-theorem textTx_pending_cur (t : TextTx) : ∃ rest, textPending t = textTx.cur t ++ rest ∧
-    ∀ n, n ≤ (textTx.cur t).length → textPending (textTx.advance t n) = (textTx.cur t).drop n ++ rest := by
-  obtain ⟨hm, lines, cur, queue, eol⟩ := t
-  cases hm
-  · exact ⟨textPending ⟨false, lines, cur, queue, eol⟩, by simp [textTx], by
-      intro n hn
-      simp [textTx] at hn
-      subst hn
-      simp [textTx, textPending]⟩
-  · exact ⟨textLinesBytes eol lines ++ textQueueBytes eol queue, by simp [textTx, textPending], by
-      intro n _
-      simp [textTx, textPending]⟩
+/-- the text sender conserves bytes, for every `maxBytes`/grant schedule and within the recursion limit:
+    a Message contributes its lines, each followed by the terminator -/
+theorem textTx_refines (eol : Bytes) :
+    TxRefines (textTx eol) (fun t m => { t with queue := t.queue ++ [m] }) (textPending eol) (textLinesBytes eol) where
+  settle := textSettle_pending eol
+  cur := by
+    intro t
+    obtain ⟨hm, lines, cur, queue⟩ := t
+    cases hm
+    · exact ⟨textPending eol ⟨false, lines, cur, queue⟩, by simp [textTx], by
+        intro n hn
+        simp [textTx] at hn
+        subst hn
+        simp [textTx, textPending]⟩
+    · exact ⟨textLinesBytes eol lines ++ textQueueBytes eol queue, by simp [textTx, textPending], by
+        intro n _
+        simp [textTx, textPending]⟩
+  enqueue := by
+    intro t x
+    simp [textPending, textQueueBytes_append, textQueueBytes]
 
 /-! ## receiver -/
 
@@ -226,5 +222,42 @@ theorem feed_lines (eol : Bytes) (he : IsEol eol) : ∀ (ls : List Bytes), (∀ 
     simp only [textLinesBytes]
     rw [List.append_assoc, e1, e2]
     simp
+
+end Muscle.Gateway
+
+namespace Muscle.Gateway
+open Muscle
+
+theorem textLinesBytes_append (eol : Bytes) (a b : List Bytes) :
+    textLinesBytes eol (a ++ b) = textLinesBytes eol a ++ textLinesBytes eol b := by
+  induction a with
+  | nil => rfl
+  | cons x r ih => simp [textLinesBytes, ih, List.append_assoc]
+
+/-- the stream of a queue of text Messages = all their lines, in order, each with its terminator -/
+theorem streamOf_textLines (eol : Bytes) (ms : List (List Bytes)) :
+    streamOf (textLinesBytes eol) ms = textLinesBytes eol ms.flatten := by
+  induction ms with
+  | nil => rfl
+  | cons m r ih => simp [streamOf, ih, textLinesBytes_append]
+
+theorem eol_nonzero (eol : Bytes) (he : IsEol eol) : ∀ b ∈ eol, b ≠ 0 := by
+  cases he with
+  | crlf => intro b hb; simp at hb; rcases hb with h | h <;> subst h <;> decide
+  | lf => intro b hb; simp at hb; subst hb; decide
+  | cr => intro b hb; simp at hb; subst hb; decide
+
+theorem textLinesBytes_nonzero (eol : Bytes) (he : IsEol eol) : ∀ (ls : List Bytes), (∀ l ∈ ls, cleanLine l) →
+    ∀ b ∈ textLinesBytes eol ls, b ≠ 0 := by
+  intro ls
+  induction ls with
+  | nil => intro _ b hb; simp [textLinesBytes] at hb
+  | cons l r ih =>
+    intro h b hb
+    simp only [textLinesBytes, List.mem_append] at hb
+    rcases hb with (hb | hb) | hb
+    · exact (h l (by simp) b hb).2.2
+    · exact eol_nonzero eol he b hb
+    · exact ih (fun x hx => h x (by simp [hx])) b hb
 
 end Muscle.Gateway
